@@ -5,6 +5,9 @@ Domain   generated worlds (flat and nested histories, edited trees with altered 
          combinations: verify (plain, -sf, -dh, -dh -co, -dh -ro, -pl), diff, info (root, -sf), hash,
          xsd-schema-check (manifest, chain), flatten (new and pre-existing destination), create (folder, -sf, -n, -dr,
          -i) - whether they succeed or fail with any exit code.
+         Later additions (probes): refused flatten onto an existing empty destination; create -i / -dr -i naming a nested
+         history by its path; pattern files with blank-only lines; -sf with -v; enumerated empty roots / empty nested
+         folders with -n, a 12-generation history under a frozen clock, folder names with a per cent sign.
 Oracle   two monitors around every invocation: (a) before/after snapshot of the whole scratch area (type, bytes, size,
          mtime_ns, mode of every entry; atime ignored) and (b) a Python audit hook listing every open-for-write,
          mkdir, rename, remove, rmdir, utime, chmod, truncate ... with its path, so writes outside the scratch area
